@@ -36,9 +36,9 @@ Theorem C12_expiry : forall g a i c p, nth_error (a_pos a) i = Some (c, p) -> pc
 Proof. exact value_expire. Qed.
 (* conversion into a successor at the published ratio: the holding's cash refund equals what the successor trade costs,
    and the successor is worth the old holding *)
-Theorem C12_conversion : forall p ratio price amount, 0 < ratio -> qeq_b (p_qty p) 0 = false ->
-  stock_delist p (Some ratio) true = (set_qty p 0 0, qmul (p_avg p) (p_qty p), Some (price, amount)) ->
-  price * amount == p_avg p * p_qty p /\ amount * (p_last p / ratio) == p_last p * p_qty p.
+Theorem C12_conversion : forall p ratio cr price amount, 0 < ratio -> qeq_b (p_qty p) 0 = false ->
+  snd (stock_delist p (Some ratio) cr) = Some (price, amount) ->
+  snd (fst (stock_delist p (Some ratio) cr)) == price * amount /\ amount * (p_last p / ratio) == p_last p * p_qty p.
 Proof. exact conversion_neutral. Qed.
 
 (* the finding D10 kept visible: a split whose result is not integral is rounded to the nearest share; value changes *)
